@@ -34,10 +34,21 @@ func loc(b []byte, caller []byte) string {
 	return "P"
 }
 
-// envBetween runs after EVERY operation: the co-tenant takes and scribbles buffers of the common size
-// classes (1 B ... 128 KiB); the explicit `e` operations do the same for every class up to 2 MiB.
+// The co-tenant HOLDS what it took until its next turn: envBetween (after EVERY operation) first
+// scribbles over and returns the buffers it holds, then takes two buffers of every common size class
+// (1 B ... 128 KiB) and fills them; the explicit `e` operations do a take-scribble-return for every class
+// up to 2 MiB.  So a buffer the library recycled while still using it is overwritten while in use.
+var coHeld [][]byte
+
 func envBetween(r int) {
-	var held [][]byte
+	for _, b := range coHeld {
+		full := b[:cap(b)]
+		for x := range full {
+			full[x] = 0xDE
+		}
+		mcache.Free(b)
+	}
+	coHeld = coHeld[:0]
 	for i := 0; i <= 17; i++ {
 		for k := 0; k < 2; k++ {
 			b := mcache.Malloc(1 << uint(i))
@@ -45,13 +56,27 @@ func envBetween(r int) {
 			for x := range full {
 				full[x] = 0xDE
 			}
-			held = append(held, b)
+			coHeld = append(coHeld, b)
 		}
 	}
-	for _, b := range held {
-		mcache.Free(b)
+}
+
+// coTenantTake: right after a Release, take and fill buffers of the given capacity's size class
+func coTenantTake(c int) {
+	if c <= 0 {
+		return
+	}
+	for k := 0; k < 3; k++ {
+		b := mcache.Malloc(c)
+		full := b[:cap(b)]
+		for x := range full {
+			full[x] = 0xDE
+		}
+		coHeld = append(coHeld, b)
 	}
 }
+
+func uaf(b []byte) string { return "" }
 
 func env(r int) {
 	for round := 0; round < 2; round++ {
